@@ -120,7 +120,7 @@ pub fn cases<T: KS + Send + Sync>(out: &mut Out, rng0: &mut Rng, tier: &Tier, wh
         }
         if let Some(g) = &g1v {
             if which == "C01" {
-                out.case("chk.c01", l(vec![nu(k), st.clone(), l(order.clone()), g.clone()]), b(true));
+                { out.case("chk.c01", l(vec![nu(k), st.clone(), l(order.clone()), g.clone()]), b(true)); out.case("chk.c01.order", l(vec![nu(k), st.clone(), l(order.clone()), g.clone()]), b(true)) }
             } else {
                 out.case("chk.c02p", l(vec![nu(k), st.clone(), n(mode), l(order.clone()), g.clone()]), b(true));
                 // the independent fixpoint oracle (connected components of the link relation) is cubic: small tables only
@@ -145,7 +145,14 @@ pub fn cases<T: KS + Send + Sync>(out: &mut Out, rng0: &mut Rng, tier: &Tier, wh
         }
         // entry point 3: k-mers without extensions (only meaningful on unpruned, threshold-1 tables)
         if min_obs == 1 {
-            let plain: Vec<(T, Pay)> = tbl.iter().map(|x| (x.0, (x.1).1.clone())).collect();
+            // the k-mers are handed over in an arbitrary order (order of first appearance, a hash set ...): the function
+            // has to keep each k-mer with ITS payload whatever the input order; two times out of three it is shuffled
+            let mut plain: Vec<(T, Pay)> = tbl.iter().map(|x| (x.0, (x.1).1.clone())).collect();
+            if !rng.chance(1, 3) {
+                for i in (1..plain.len()).rev() {
+                    plain.swap(i, rng.below(i + 1));
+                }
+            }
             let pl = &plain;
             let g3 = guard(std::panic::AssertUnwindSafe(move || compress_kmers_no_exts(stranded, sp, pl)));
             // its table: extensions derived from membership
@@ -185,7 +192,7 @@ pub fn cases<T: KS + Send + Sync>(out: &mut Out, rng0: &mut Rng, tier: &Tier, wh
                 out.case("chk.c01.hyp", l(vec![nu(k), st.clone(), l(order3.clone())]), l(vec![b(true), b(true)]));
                 out.case("c.compress", l(vec![nu(k), st.clone(), n(mode), l(order3.clone())]), opt(g3v.clone()));
                 if let Some(g) = &g3v {
-                    out.case("chk.c01", l(vec![nu(k), st.clone(), l(order3.clone()), g.clone()]), b(true));
+                    { out.case("chk.c01", l(vec![nu(k), st.clone(), l(order3.clone()), g.clone()]), b(true)); out.case("chk.c01.order", l(vec![nu(k), st.clone(), l(order3.clone()), g.clone()]), b(true)) }
                 }
                 out.case("chk.total", l(vec![nu(k), st.clone(), n(mode), l(order3.clone())]), b(g3v.is_some()));
             } else if let Some(g) = &g3v {
